@@ -7,6 +7,7 @@ import (
 	"fmt"
 	"sync"
 
+	"github.com/elementsproject/peerswap/lightning"
 	"github.com/elementsproject/peerswap/log"
 	"github.com/elementsproject/peerswap/premium"
 
@@ -989,9 +990,12 @@ func (s *SwapService) lockSwap(swapId, channelId string, fsm *SwapStateMachine) 
 	s.Lock()
 	defer s.Unlock()
 
-	// Check if we already have an active swap on the same channel
+	// Check if we already have an active swap on the same channel. The short
+	// channel id is written with 'x' by CLN and on the wire and with ':' by
+	// LND, so compare the normalized form.
+	normalizedChannelId := lightning.Scid(channelId).ClnStyle()
 	for id, swap := range s.activeSwaps {
-		if swap.Data.GetScid() == channelId {
+		if lightning.Scid(swap.Data.GetScid()).ClnStyle() == normalizedChannelId {
 			return ActiveSwapError{channelId: channelId, swapId: id}
 		}
 	}
